@@ -2,6 +2,8 @@ package leanhelix
 
 import (
 	"github.com/orbs-network/lean-helix-go/services/interfaces"
+	"github.com/orbs-network/lean-helix-go/services/randomseed"
+	"github.com/orbs-network/lean-helix-go/spec/types/go/protocol"
 	"github.com/orbs-network/lean-helix-go/spec/types/go/primitives"
 	"github.com/orbs-network/lean-helix-go/state"
 	env "github.com/orbs-network/lean-helix-go/zzverifenv"
@@ -9,6 +11,7 @@ import (
 )
 
 func init() {
+	env.Register("C13_FutureRound", C13_FutureRound)
 	env.Register("C13_Worker", C13_Worker)
 	env.Register("C14_Sync", C14_Sync)
 	env.Register("C14_MainLoop", C14_MainLoop)
@@ -121,7 +124,7 @@ func C13_Worker() {
 		case 0:
 			n.commitErr = env.NondetBool("commit_cb_fails")
 			before := len(n.commits)
-			wd.honestRound(cur, byte(0x30+i))
+			wd.honestRound(cur, byte(0x31+2*i))
 			if len(n.commits) > before {
 				env.Assert("C13.commit_once_per_round", len(n.commits) == before+1)
 				env.Assert("C13.commit_height_is_term_height", n.commits[before].block != nil && n.commits[before].block.H == cur)
@@ -136,7 +139,7 @@ func C13_Worker() {
 		case 3:
 			// stale traffic of an earlier height re-delivered
 			if cur > 1 {
-				wd.honestRound(cur-1, byte(0x30+i))
+				wd.honestRound(cur-1, byte(0x31+2*i))
 			}
 		}
 		obs.observe()
@@ -220,4 +223,66 @@ func C14_MainLoop() {
 		env.Assert("C14.newest_sync_wins", got.block != nil && uint64(got.block.Height()) == max)
 	}
 	env.Reach("C14.mainloop.done")
+}
+
+// C13_FutureRound: the complete honest traffic of height 2 arrives while the node is still deciding
+// height 1 (it sits in the future cache); then height 1 commits. Entering height 2 drains the cache, which
+// commits height 2 from inside the start of the round. The callback sequences must stay strictly increasing.
+func C13_FutureRound() {
+	me := env.Param("me") // 1..3
+	wd := newWorld(me, equalWeights(4))
+	n := wd.n
+	n.commitErr = false
+	n.st.OnStore = func(e *stub.StoreEvent) { e.StateHeight = n.m.state.Height() }
+	obs := &c13Obs{wd: wd}
+	obs.observe()
+	agg1 := stub.GroupSeedSig(1, randomseed.RandomSeedToBytes(wd.net.seed))
+	proof1 := (&protocol.BlockProofBuilder{RandomSeedSignature: agg1}).Build().Raw()
+	net2 := newVNet(wd.reg, wd.net.committee, vInstance, proof1)
+	b2 := &stub.Block{H: 2, Tag: 0x23, ProposalOK: true}
+	full := env.NondetBool("height2_traffic_complete")
+	// height-2 traffic first (cached), PREPAREs before or after the COMMITs
+	preparesLast := env.NondetBool("prepares_arrive_last")
+	n.deliver(net2.ppm(0, 2, 0, b2).ToConsensusRawMessage())
+	sendPrepares := func() {
+		for i := 1; i < 4; i++ {
+			if i != me {
+				n.deliver(net2.pm(i, 2, 0, stub.HashOf(b2)).ToConsensusRawMessage())
+			}
+		}
+	}
+	if !preparesLast {
+		sendPrepares()
+	}
+	if full {
+		for i := 0; i < 4; i++ {
+			if i != me {
+				n.deliver(net2.cm(i, 2, 0, stub.HashOf(b2)).ToConsensusRawMessage())
+			}
+		}
+	}
+	if preparesLast {
+		sendPrepares()
+	}
+	obs.observe()
+	env.Assert("C13.future.nothing_yet", len(n.commits) == 0 && len(n.rounds) == 1)
+	// now height 1 commits
+	b1 := &stub.Block{H: 1, Tag: 0x21, ProposalOK: true}
+	roundWith(n, me, wd.net, 1, b1)
+	obs.observe()
+	// C17: a cached message reaches the protocol logic of its own height's term only
+	for _, e := range n.st.Events {
+		env.Assert("C17.only_own_height", e.Msg.BlockHeight() == e.StateHeight)
+	}
+	// sequences of callback arguments
+	for i := 1; i < len(n.rounds); i++ {
+		env.Assert("C13.round_cb_increasing", n.rounds[i].height > n.rounds[i-1].height)
+	}
+	for i := 1; i < len(n.commits); i++ {
+		env.Assert("C13.commit_cb_increasing", n.commits[i].block != nil && n.commits[i-1].block != nil && n.commits[i].block.H > n.commits[i-1].block.H)
+	}
+	env.Assert("C13.future.height1_committed", len(n.commits) >= 1)
+	if full && len(n.commits) == 2 {
+		env.Reach("C13.future.committed_from_cache")
+	}
 }
